@@ -165,6 +165,24 @@ class World:
         self.fun_calls = {}
         self.knob_objs = {}
 
+    @classmethod
+    def from_manager(cls, spec, manager):
+        """Wrap an existing manager (e.g. an unpickled copy) whose root
+        containers are labelled 's' and 'f'."""
+        self = cls.__new__(cls)
+        import xdeps
+        self.xd = xdeps
+        self.spec = spec
+        self.m = manager
+        self.roots = dict(manager.containers)
+        self.data = self.roots["s"]._owner
+        self.funcs = self.roots["f"]._owner
+        self.trace = self.data.__dict__.get("_t") or Trace()
+        retrace(self.data, self.trace)
+        self.fun_calls = {}
+        self.knob_objs = {}
+        return self
+
     # -- helpers ---------------------------------------------------------
     def ref(self, path):
         return T.ref_of(self.roots, path)
